@@ -194,8 +194,13 @@ def apply_t2(text, counts):
             continue
         # must be statement position: previous non-space code char is one of ; { } or start
         p = s - 1
-        while p >= 0 and (text[p].isspace() or m[p] == rs.COMMENT):
-            p -= 1
+        while p >= 0:
+            if text[p] == TAG:
+                p = text.rfind(TAG, 0, p) - 1
+            elif text[p].isspace() or m[p] == rs.COMMENT:
+                p -= 1
+            else:
+                break
         if p >= 0 and text[p] not in ';{}':
             continue
         close = rs.match_close(text, m, e - 1)
@@ -531,6 +536,24 @@ def do_extract(u, spec, subs, tline):
             text, note = t4mod.apply(text, args)
             fn_counts['T4'] = fn_counts.get('T4', 0) + 1
             u.rewrites.append({'fn': ' :: '.join(path), 'file': relpath, 'kind': 'T4', 'what': note})
+    for sd in subs:
+        d = sd['d']
+        if d.startswith('keep-derive '):
+            names = [x.strip() for x in d[len('keep-derive '):].split(',') if x.strip()]
+            # the item's own attributes precede `st` in the source file
+            head = src[max(0, st - 1500):st]
+            mm = list(re.finditer(r'#\[derive\(([^)]*)\)\]', head))
+            have = set()
+            for m_ in mm:
+                # only derives that directly precede the item (no other item in between)
+                if re.search(r'[;}]', head[m_.end():]):
+                    continue
+                have.update(x.strip().split('::')[-1] for x in m_.group(1).split(','))
+            for nme in names:
+                if nme not in have:
+                    raise Undecided('keep-derive %s: the item does not derive it in /repo' % nme)
+            text = tag_tmpl('#[derive(%s)]' % ', '.join(names), sd['tline']) + '\n' + text
+            fn_counts['T1-kept-derive'] = fn_counts.get('T1-kept-derive', 0) + len(names)
     is_fn = path[-1].startswith('fn ')
     labels_local = []
     if is_fn:
@@ -580,7 +603,7 @@ def do_extract(u, spec, subs, tline):
                 fn_counts['T5'] = fn_counts.get('T5', 0) + 1
             elif d.startswith('attr '):
                 splices.append((0, tag_tmpl(d[len('attr '):].strip(), sd['tline']) + '\n'))
-            elif d.startswith(('rename ', 't4 ')):
+            elif d.startswith(('rename ', 't4 ', 'keep-derive ')):
                 pass
             else:
                 raise Undecided('%s: unknown sub-directive %r' % (u.name, d))
@@ -591,7 +614,7 @@ def do_extract(u, spec, subs, tline):
             text = re.sub(r'^(\s*)(pub(\s*\([^)]*\))?\s+)?', r'\1' + (vis + ' ' if vis else ''), text, count=1)
     else:
         for sd in subs:
-            if not sd['d'].startswith(('rename ', 't4 ')):
+            if not sd['d'].startswith(('rename ', 't4 ', 'keep-derive ')):
                 raise Undecided('%s: sub-directive %r on a non-fn item' % (u.name, sd['d']))
     # untag and emit
     first = len(u.lines) + 1
